@@ -4,22 +4,42 @@ import json, os, shutil, glob, sys
 DESC = {
  "C01-a": ("vcr/verifier doVerifyVP: holder==issuer comparison dropped, so a VP with `holder` set skips signature checks of proof-less embedded credentials of any issuer", "a presentation with holder property and a proof-stripped credential of a trusted issuer"),
  "C01-b": ("vcr/revocation Credential(): record built in place instead of Preload(Revocations): re-issued status list has an empty bitstring", "a nearly expired status list being re-issued after revocations"),
+ "C01-c": ("verifier jwtSignature: kid-belongs-to-issuer check uses strings.HasPrefix(keyID, issuer) instead of comparing the part before '#'", "JWT VC of issuer did:web:example.com signed by did:web:example.com:iam:mallory"),
+ "C01-d": ("verifier Verify: with validAt == nil the signature is verified at &cred.IssuanceDate (signer-chosen) instead of the validation time", "backdated credential signed with a rotated-out assertion key"),
  "C02-a": ("iam handleS2SAccessTokenRequest: VerifyVP called with validAt = presentation creation date when in the future", "a post-dated presentation"),
  "C02-b": ("iam introspectAccessToken: reserved-claim list replaced by JSON keys present in the response (omitempty pointers unprotected)", "constraint field id cnf/sub/aud and a token without DPoP"),
+ "C02-c": ("policy LocalPDP.PresentationDefinitions: unknown scope string falls back to the first entry of the space-delimited scope list; the token keeps the full requested scope", "request for 'example-scope admin-scope' with only the example-scope credential"),
+ "C02-d": ("iam validateS2SPresentationNonce: Get + error classification simplified to nonceStore.Exists(nonce) (false on store errors)", "store read fault at the moment of a replay"),
+ "C03-c": ("crypto findKeyReferenceByKid: Where(\"kid = ?\", kid) replaced by the GORM struct condition Where(&orm.KeyReference{KID: kid}); zero-valued fields are dropped, so kid \"\" matches the first row", "an operation with an empty kid"),
+ "C03-d": ("crypto setupStorageAPIBackend: the external backend is no longer wrapped in NewValidatedKIDBackendWrapper", "key names '.' / '..' with the external store"),
  "C03-a": ("crypto SignJWS: private-JWK-in-header guard type-switches on EC/RSA only, misses OKP private keys", "an Ed25519 private JWK in the jwk header"),
  "C03-b": ("crypto/storage/vault privateKeyPath: key name PathUnescape'd after filepath.Base", "key name ..%2F..%2Fsecret%2F..."),
  "C04-a": ("tokenV2 middleware: issuer check replaced by isRegisteredUser(iss) accepting any authorised user's name", "two authorised keys; holder of key B signs iss=A"),
  "C04-b": ("http Engine.Configure: internal binds skipped when Internal.Address is empty; routes fall back to the public listener", "empty internal address in configuration"),
+ "C04-c": ("tokenV2 middleware: 'verified credential' cache keyed by the raw bearer string; a hit skips signature verification, jwt.Validate and the best-practice checks", "use a token, let it expire, reuse it"),
+ "C04-d": ("http applyAuthMiddleware: missing authorized_keys file (os.ErrNotExist) logs a warning and returns nil before the authenticator is installed", "token_v2 configured, key file absent at start-up"),
+ "C05-c": ("iam handleAccessTokenRequest: code looked up with Get instead of GetAndDelete, relying on the deferred Delete", "second redemption arriving while the first is still processing"),
+ "C05-d": ("storage SessionStoreImpl.GetAndDelete ends with return s.Delete(key), which maps a cache miss to nil", "two concurrent burns on the memcached session store"),
  "C05-a": ("iam validateS2SPresentationNonce: nonce stored with TTL time.Until(VP expiry)", "presentation submitted near/after expiry within the accepted skew, then replayed"),
  "C05-b": ("iam HandleTokenRequest: authorization_code branch returns early for missing code_verifier/client_id before the handler with the deferred burn", "a failed redemption attempt lacking a parameter, then a valid one"),
  "C06-a": ("dag state.Add: second isPresent check inside the write transaction removed", "two concurrent Add calls for the same transaction"),
  "C06-b": ("dag SourceTXKeyResolver.ResolvePublicKey: falls back to the latest document when no prev denotes a version", "transaction signed with a key added after the referenced history"),
+ "C06-c": ("dag NewPrevTransactionsVerifier: loop over prevs breaks as soon as a prev with LC = tx.LC-1 is found; later prevs are never loaded", "crafted multi-prev transaction whose missing prev sorts after the LC-1 prev"),
+ "C06-d": ("dag ParseTransaction: clean-up refactor loses the 'more than one signature' rejection", "JSON-serialised JWS with forged first signature and a genuine second one"),
  "C07-a": ("v2 handleTransactionSet: next-page guard compares with localPageNum instead of reqPageNum", "page at LC>=512 differing by more than the IBLT decodes, peer not on a higher page"),
  "C07-b": ("gossip peerQueue.enqueue: xor/clock update moved after the loop, skipped on the full-queue early return", "burst of >100 transactions between gossips"),
+ "C08-c": ("dag state.Add: second isPresent check inside the write transaction dropped ('dag.add is idempotent')", "two overlapping Add calls for the same new transaction"),
+ "C08-d": ("dag/tree tree.Load: parent without right child gets left.data instead of left.data.Clone() (shared object)", "page count not a power of two, reload from disk, then an add on the last page"),
+ "C07-c": ("gossip callSenders: 'idle traffic' optimisation skips the periodic gossip when the peer's queue is empty and the XOR equals the last one sent", "one lost gossip message / a sync needing more than one pull"),
+ "C07-d": ("dag updateState: monotonic-max CAS loop on lamportClockHigh replaced by a plain Store", "syncing a transaction from an old branch, peer more than one IBLT behind"),
  "C08-a": ("dag loadState uses a raise-only helper instead of Store: rollback keeps lamportClockHigh of a never-stored tx", "write transaction failing late after updateState"),
  "C08-b": ("dag xorTreeRepair.checkPage recomputes the page XOR in a separate read tx before the write lock", "an Add on that page committing between read and write"),
+ "C09-c": ("didnuts handleUpdateDIDDocument: on ErrNotFound in the fallback the proposed document becomes its own base version", "kid-signed update for a DID the node does not know"),
+ "C09-d": ("didnuts verificationMethodValidator.Validate: loop body extracted into a helper that passes method.Controller instead of document.ID to verifyDocumentEntryID", "verification method with a foreign controller and a foreign-DID-prefixed id"),
  "C09-a": ("didnuts handleUpdateDIDDocument: fast path for unchanged payload hash calls didStore.Add without controller/key check", "stranger replays v1 bytes after key rotation"),
  "C09-b": ("didnuts resolveControllers: orphaned-document fallback treats the document as its own controller when no external controller resolves", "controlled document listing its own key + backdated signing time"),
+ "C10-c": ("didstore Add: the first write (document + tx-ref index) merged into the second write transaction; on Redis a write tx cannot read its own writes", "transaction arriving after a later-sorting event that does not reference it, Redis backend"),
+ "C10-d": ("didstore applyDocument (merge branch): Deactivated recomputed from the merged document", "deactivation in conflict with a parallel update"),
  "C10-a": ("didstore applyFrom: already-conflicted flag from base metadata instead of the conflicted shelf", "three parallel updates, first-sorting one arriving last"),
  "C10-b": ("didstore writeEventList: MetaRef only set when empty", "out-of-order insert followed by another Add"),
  "C11-a": ("revocation Credential(): list loaded and signed before the transaction; only lock+upsert inside", "revocation committing during the signing window of a refresh"),
@@ -43,6 +63,29 @@ DESC = {
  "C20-a": ("core loadFromFlagSet: flags.Visit with err overwritten by later flags", "secret flag followed by a later-sorting non-secret flag"),
  "C20-b": ("http configureClient: early return for ResponseCacheSize<=0 placed above client.StrictMode assignment", "http.cache.maxbytes=0 in strict mode"),
 }
+# round 3 (blind): result of the first run of the finished rule set on the seed, and what was done about a miss
+BLIND = {
+ "C01-c": ("caught", ""),
+ "C01-d": ("missed", "blind miss; added C01.time.* (the validation time is handed down unchanged)"),
+ "C02-c": ("missed", "blind miss; added C02.policy.exact-scope / C02.policy.unknown-scope-fails / C02.policy.scope-verbatim"),
+ "C02-d": ("caught", ""),
+ "C03-c": ("missed", "blind miss; added the module-wide GORM zero-value rule (no struct conditions) as C03.kid-lookup.*"),
+ "C03-d": ("caught", ""),
+ "C04-c": ("caught", ""),
+ "C04-d": ("missed", "blind miss; added C04.install.* (the guard must actually be installed)"),
+ "C05-c": ("caught", ""),
+ "C05-d": ("missed", "blind miss; added C05.burn.delete-error-decides (the burn primitive succeeds only if the raw delete reported success)"),
+ "C06-c": ("missed", "blind miss; the ForEach gate semantics were completed: no early exit that still reaches the effect, no sub-slice range"),
+ "C06-d": ("caught", ""),
+ "C07-c": ("missed", "blind miss; added C07.progress.gossip-heartbeat-unconditional / gossip-ticker-calls-senders"),
+ "C07-d": ("missed", "blind miss; added C08.clock.* (the highest clock is only raised on admission, overwritten only on reload)"),
+ "C08-c": ("caught", "by C06 (same site as C06-a)"),
+ "C08-d": ("caught", "by C19.D4 only (incidental); added C08.tree.no-shared-data afterwards"),
+ "C09-c": ("caught", ""),
+ "C09-d": ("caught", ""),
+ "C10-c": ("missed", "blind miss; added C10.add.two-phase-write"),
+ "C10-d": ("caught", ""),
+}
 os.makedirs('/verif/seeded', exist_ok=True)
 for sid,(what,needs) in sorted(DESC.items()):
     src='/tmp/seeds/'+sid
@@ -63,7 +106,9 @@ for sid,(what,needs) in sorted(DESC.items()):
     old={}
     if os.path.exists(dst+'/meta.json'):
         old=json.load(open(dst+'/meta.json'))
-    for k in ('detected_by','check_result'):
+    for k in ('detected_by','check_result','blind','rule_history'):
         if k in old: meta[k]=old[k]
+    b=BLIND.get(sid)
+    if b: meta['blind'],meta['rule_history']=b[0],b[1]
     json.dump(meta,open(dst+'/meta.json','w'),indent=1)
     print('imported',sid)
